@@ -11,7 +11,7 @@
    yet (they need the Coq `Spec.decode` of C04, which is another file). *)
 From Coq Require Import List NArith String.
 From Wbxml Require Import Model.Codec Model.TablesDefs Model.EncWbxml Model.TreeNorm Proofs.EncWbxmlProofs Proofs.EncWbxmlSerialize Proofs.EncWbxmlDenote Proofs.EncWbxmlAbs Proofs.EncWbxmlStrict2 Proofs.EncWbxmlDenote2
-     Model.EncWbxmlEvents Proofs.EncWbxmlTblOk Proofs.EncWbxmlDenote3 Proofs.EncWbxmlAbs4 Proofs.EncWbxmlDenote4.
+     Model.EncWbxmlEvents Proofs.EncWbxmlTblOk Proofs.EncWbxmlDenote3 Proofs.EncWbxmlAbs4 Proofs.EncWbxmlDenote4 Proofs.EncWbxmlAbs5 Model.EncWbxmlTables.
 From Wbxml Require Model.Parser Model.Spec.
 Import ListNotations.
 Local Open Scope N_scope.
@@ -421,3 +421,28 @@ Example C06_binary_blank_payload_example :
     = [Parser.EvStartDoc 106 9996; Parser.EvStartElt (Parser.TagTok 0 6 [112]) []; Parser.EvStartElt (Parser.TagTok 0 5 [109]) [];
        Parser.EvChars [13; 10]; Parser.EvEndElt (Parser.TagTok 0 5 [109]); Parser.EvEndElt (Parser.TagTok 0 6 [112]); Parser.EvEndDoc].
 Proof. cbv zeta. repeat split; vm_compute; reflexivity. Qed.
+
+(* GRAMMAR LEVEL, EVERY LANGUAGE, EVERY NODE KIND (the first half of the full statement, no longer partial): whenever the
+   conversion of a tree with an element root succeeds and the output is shorter than 2^32 octets (so that no OPAQUE or
+   table length wraps), the bytes are Spec.serialize of an abstract document that is Spec.strict_doc (table NUL-terminated,
+   every STR_T / LITERAL / public-id index is the first octet of a table entry, no switchPage before an extension).
+   abs_node5 (Proofs/EncWbxmlAbs5.v) follows ALL branches of the encoder: SI / EMN %Datetime attributes and the OTA icon
+   (OPAQUE), Wireless-Village integers / dates (OPAQUE or inline) and extension tokens (EXT_T_0), DRMREL key values
+   (OPAQUE), the SyncML MIME rewrite, the generic splitting against value tokens and string table, binary-flagged
+   elements (OPAQUE), CDATA sections (one OPAQUE with the collected text), embedded trees (one OPAQUE holding the
+   embedded document), literal tags / attributes.  Hypotheses: token tags of the tree and of the language's tag table are
+   0 or 5..63 (true of every table: C06_all_tables_have_wellformed_tag_tokens), nothing else. *)
+Theorem C06_output_is_serialize_of_strict_doc : forall tbl l o tag attrs ch bs,
+  let e := enc_env l o in
+  tag_tbl_ok e = true -> frag5_node (NElt tag attrs ch) = true ->
+  enc_wbxml tbl l o [NElt tag attrs ch] = EOk bs -> len bs < 4294967296 ->
+  exists st' root,
+    abs_node5 tbl e None (NElt tag attrs ch) (start_state e [NElt tag attrs ch]) = Some ([root], st') /\
+    bs = Spec.serialize (abs_doc2 e st' root) /\ Spec.strict_doc (abs_doc2 e st' root) = true.
+Proof. exact enc_wbxml_full. Qed.
+Print Assumptions C06_output_is_serialize_of_strict_doc.
+
+Theorem C06_all_tables_have_wellformed_tag_tokens : forall o,
+  forallb (fun l => tag_tbl_ok (enc_env l o)) main_btable = true.
+Proof. exact all_tables_tag_ok. Qed.
+Print Assumptions C06_all_tables_have_wellformed_tag_tokens.
